@@ -366,6 +366,34 @@ Theorem zones_of_lines_are_raw lines z :
                      map fst mids = z_raws z.
 Proof. apply (zones_from_slices lines lines 0%nat None eq_refl I). Qed.
 
+(* ORACLE INDEPENDENCE: two inputs with the same raw lines -- whatever their NFC components are -- have the same
+   zones with the same raw content: the zone content is a function of the raw text alone *)
+Definition zview (z : zone) : nat * str * option str * list str := (z_idx z, z_marker z, z_tag z, z_raws z).
+Definition cview (c : option (nat * str * option str * str * list str)) : option (nat * str * option str * list str) :=
+  match c with Some (i, m, t, _, rr) => Some (i, m, t, rr) | None => None end.
+
+Lemma zones_from_oracle_independent : forall ls1 ls2 idx c1 c2,
+  map fst ls1 = map fst ls2 -> cview c1 = cview c2 ->
+  map zview (zones_from ls1 idx c1) = map zview (zones_from ls2 idx c2).
+Proof.
+  induction ls1 as [|[raw nfc1] ls1 IH]; intros [|[raw2 nfc2] ls2] idx c1 c2 Hm Hc; try discriminate Hm; [reflexivity|].
+  cbn [map fst] in Hm. injection Hm as <- Hm.
+  cbn [zones_from].
+  destruct c1 as [[[[[i1 m1] t1] o1] rr1]|]; destruct c2 as [[[[[i2 m2] t2] o2] rr2]|]; try discriminate Hc.
+  - cbn [cview] in Hc. injection Hc as <- <- <- <-.
+    destruct (fence_match raw) as [[bt tr]|].
+    + destruct (closes bt tr m1).
+      * cbn [map]. f_equal. apply IH; [exact Hm|reflexivity].
+      * destruct (length m1 <=? length bt)%nat; [reflexivity|]. apply IH; [exact Hm|reflexivity].
+    + apply IH; [exact Hm|reflexivity].
+  - destruct (fence_match raw) as [[bt tr]|]; apply IH; try exact Hm; reflexivity.
+Qed.
+
+Theorem zones_oracle_independent lines1 lines2 :
+  map fst lines1 = map fst lines2 ->
+  map zview (zones_of_lines lines1) = map zview (zones_of_lines lines2).
+Proof. intros H. apply zones_from_oracle_independent; [exact H|reflexivity]. Qed.
+
 End Scan.
 
 (* ================================================================================================= *)
@@ -555,6 +583,54 @@ Proof.
   destruct rest as [|nl rest'].
   - eexists. split; [exact H|]. split; [reflexivity|]. exists []. reflexivity.
   - eexists. split; [exact H|]. split; [reflexivity|]. eexists [_]. reflexivity.
+Qed.
+
+(* ---- 1 + 3 composed, for ALL inputs: the LITERAL_CONTENT token of every zone is the RAW text of its lines ---- *)
+Lemma span_ok_skipn outs sp z :
+  span_ok outs sp z ->
+  exists rest, skipn (N.to_nat (sp_start sp)) (join [c_nl] outs) = join [c_nl] (z_open z :: z_raws z ++ [z_close z]) ++ rest /\
+               sp_end sp - sp_start sp = len (join [c_nl] (z_open z :: z_raws z ++ [z_close z])).
+Proof.
+  intros (_ & _ & Hs & He & Hf). rewrite He, Hs.
+  set (Z := z_open z :: z_raws z ++ [z_close z]) in *.
+  assert (HZ : Z <> []) by (subst Z; discriminate).
+  assert (Hsk : skipn (z_idx z) outs = Z ++ skipn (2 + length (z_raws z)) (skipn (z_idx z) outs)).
+  { rewrite <- Hf. symmetry. apply firstn_skipn. }
+  set (R := skipn (2 + length (z_raws z)) (skipn (z_idx z) outs)) in *.
+  assert (Hkey : join [c_nl] outs = nlcat (firstn (z_idx z) outs) ++ join [c_nl] (Z ++ R)).
+  { rewrite <- (firstn_skipn (z_idx z) outs) at 1. rewrite Hsk.
+    apply join_nlcat. destruct Z; [congruence|discriminate]. }
+  rewrite Hkey, len_to_nat, skipn_exact.
+  destruct R as [|r0 R'].
+  - exists []. rewrite !app_nil_r. split; [reflexivity|lia].
+  - exists (c_nl :: join [c_nl] (r0 :: R')). rewrite join_app2 by (congruence || discriminate). split; [reflexivity|lia].
+Qed.
+
+Theorem lexer_zone_content_raw cls (lines : list (str * str)) outs spans :
+  fence_scan cls lines 1 0 None [] [] = inr (outs, spans) ->
+  Forall2 (fun sp z =>
+    sp_marker sp = z_marker z /\ sp_tag sp = z_tag z /\
+    forall st spans',
+      ls_in st = skipn (N.to_nat (sp_start sp)) (join [c_nl] outs) ->
+      memb c_nl (z_open z) = false -> memb c_nl (z_close z) = false ->
+      exists st' extra,
+        step_fence st sp spans' = Continue st' /\ ls_spans st' = spans' /\
+        ls_toks st' = extra ++
+          [mkTok FENCE_CLOSE (TVText (z_marker z)) (ls_line st + 1 + mid_count (z_raws z)) 1 None;
+           mkTok LITERAL_CONTENT (TVText (join [c_nl] (z_raws z))) (ls_line st + 1) 1 None;
+           mkTok FENCE_OPEN (TVFence (z_marker z) (z_tag z)) (ls_line st) (ls_col st) None] ++ ls_toks st)
+    spans (zones_of_lines cls lines).
+Proof.
+  intros H. destruct (fence_scan_lines cls _ _ _ H) as [_ Hf]. clear H.
+  induction Hf as [|sp z sps zs Hz _ IH]; constructor; [|exact IH].
+  destruct (span_ok_skipn _ _ _ Hz) as (rest & Hsk & Hlen).
+  destruct Hz as (Hm & Ht & _). split; [exact Hm|]. split; [exact Ht|].
+  intros st spans' Hin Ho Hc. rewrite Hsk in Hin.
+  pose proof (step_fence_content st sp spans' (z_open z) (z_raws z) (z_close z) rest Ho Hc Hin Hlen) as Hstep.
+  cbv zeta in Hstep. rewrite Hm, Ht in Hstep.
+  destruct rest as [|nl rest'].
+  - eexists. exists []. split; [exact Hstep|]. split; reflexivity.
+  - eexists. eexists [_]. split; [exact Hstep|]. split; reflexivity.
 Qed.
 
 (* ================================================================================================= *)
